@@ -571,7 +571,8 @@ func TestVerif_C38_Probe(t *testing.T) {
 	}
 	sort.Strings(baseNames)
 	// quick: bases A1 and A3 get all single changes, all option-option pairs and a seeded sample
-	// of the other pairs, A2 and A4 the single changes; thorough: every pair on every base
+	// of the other pairs, A2 and A4 the single changes; thorough: every pair on A1 and A3, single
+	// changes and option-option pairs on A2 and A4
 	pairSample := verifkit.EnvInt("C38_PAIRS", verifkit.Pick(40, 1<<30))
 	var probes []c38Probe
 	baseDir := map[string]string{}
@@ -613,7 +614,8 @@ func TestVerif_C38_Probe(t *testing.T) {
 				c1.Apply(&b)
 				c2.Apply(&b)
 				p := c38Probe{base: bn, fields: []string{c1.Field, c2.Field}, vars: []string{c1.Var, c2.Var}, b: b, fault: "none"}
-				if !verifkit.Thorough() && (bn == "A2-ctags" || bn == "A4-multishard") {
+				minor := bn == "A2-ctags" || bn == "A4-multishard"
+				if minor && (!verifkit.Thorough() || !(isOpt(c1) && isOpt(c2))) {
 					continue
 				}
 				if isOpt(c1) && isOpt(c2) {
